@@ -267,10 +267,8 @@ def batchRemove (s : State) (ids : List Nat) : State × Res :=
       match oldIds with
       | none => ({ s with sm := r.1 }, .panic)
       | some oids =>
-        let newG : List Int :=
-          if inHandStatus s.status then
-            oids.filterMap (fun id => (findIdxAux id keep 0).map (fun k => (k : Int)))
-          else s.gidx
+        -- re-mapped through the ids whatever the table status (D30, fixed: only while the status was a hand status)
+        let newG : List Int := oids.filterMap (fun id => (findIdxAux id keep 0).map (fun k => (k : Int)))
         ({ s with sm := r.1, players := keep, seatMap := m, gidx := newG,
                   takenOut := s.takenOut + (gone.map (·.bankroll)).sum }, .ok)
 
